@@ -24,6 +24,7 @@ import (
 	"errors"
 
 	errorsmod "cosmossdk.io/errors"
+	sdk "github.com/cosmos/cosmos-sdk/types"
 
 	"github.com/noble-assets/orbiter/v2/types/core"
 )
@@ -35,6 +36,13 @@ func (a *AmountDispatched) IsPositive() bool {
 func (a DispatchedAmountEntry) Validate() error {
 	if a.Denom == "" {
 		return errors.New("cannot set empty denom")
+	}
+
+	// NOTE: the denom is part of the keys of the dispatched amounts and of their index. A
+	// transfer records the denom of a coin, which is always a valid one: anything else (e.g. a
+	// string containing the key delimiter) cannot have been recorded and cannot be stored.
+	if err := sdk.ValidateDenom(a.Denom); err != nil {
+		return errorsmod.Wrap(err, "invalid denom")
 	}
 
 	if a.SourceId == nil {
